@@ -659,7 +659,7 @@ func (r *stack) transfer(dest *stack) (ok bool) {
 	// if a capacity was set, make sure
 	// the destination can handle it...
 	if dest.cap() > 0 {
-		if r.ulen() > dest.cap()-r.ulen() {
+		if r.ulen() > dest.cap()-dest.len() {
 			// capacity is in-force, and
 			// there are too many slices
 			// to xfer.
@@ -671,13 +671,14 @@ func (r *stack) transfer(dest *stack) (ok bool) {
 	// xfer slices, without any regard for
 	// nilness. Slice type is not subject
 	// to discrimination.
+	before := dest.ulen()
 	for i := 0; i < r.ulen(); i++ {
 		sl, _, _ := r.index(i) // cfg offset handled by index method
 		dest.push(sl)
 	}
 
 	// return result
-	ok = dest.ulen() >= r.ulen()
+	ok = dest.ulen() == before+r.ulen()
 
 	return
 }
